@@ -48,13 +48,26 @@ impl crate::SyncHttpClient for ureq::Agent {
         let mut builder = http::Response::builder()
             .status(StatusCode::from_u16(response.status()).map_err(http::Error::from)?);
 
-        if let Some(content_type) = response
-            .header(CONTENT_TYPE.as_str())
-            .map(HeaderValue::from_str)
-            .transpose()
-            .map_err(http::Error::from)?
-        {
-            builder = builder.header(CONTENT_TYPE, content_type);
+        match response.header(CONTENT_TYPE.as_str()) {
+            Some(content_type) => {
+                builder = builder.header(
+                    CONTENT_TYPE,
+                    HeaderValue::from_str(content_type).map_err(http::Error::from)?,
+                );
+            }
+            // `ureq` hides a header whose value is not visible ASCII. The header is present
+            // nevertheless and must not be passed on as absent (the caller would then skip its
+            // check of the media type).
+            None if response
+                .headers_names()
+                .iter()
+                .any(|name| name == CONTENT_TYPE.as_str()) =>
+            {
+                return Err(HttpClientError::Other(format!(
+                    "invalid `{CONTENT_TYPE}` response header value"
+                )));
+            }
+            None => {}
         }
 
         let mut body = Vec::new();
